@@ -191,7 +191,7 @@ def c10(prog, obs, impl):
         if not o['ok']:
             continue
         for v, d in o['out']:
-            obj = impl.env[v] if v in impl.env else None
+            obj = (impl.env[v] if v in impl.env else None) if impl is not None else None
             for j, c in enumerate(containers_of(d)):
                 expect = measure(subs, c, 'L') * 10**6
                 if not close(c['vol'], expect, F(1, 10**8) * k * (i + 1), F(1, 10**9)):
